@@ -125,12 +125,21 @@ func (g *G) CDXTreeDocument(maxNodes int) *sbom.Document {
 	g.R.Shuffle(len(d.NodeList.Edges), func(i, j int) {
 		d.NodeList.Edges[i], d.NodeList.Edges[j] = d.NodeList.Edges[j], d.NodeList.Edges[i]
 	})
-	if g.Chance(0.4) {
-		for k := 1 + g.Int(2); k > 0; k-- {
+	if g.Chance(0.5) {
+		for k := 1 + g.Int(3); k > 0; k-- {
+			if g.Chance(0.35) {
+				// a custom lifecycle: a name (and perhaps a description) instead of one of the defined phases
+				nm := Pick(g, []string{"customer-acceptance", "staging", "x"})
+				dt := &sbom.DocumentType{Name: &nm}
+				if g.Chance(0.5) {
+					ds := Pick(g, []string{"signed off by QA", "d"})
+					dt.Description = &ds
+				}
+				d.Metadata.DocumentTypes = append(d.Metadata.DocumentTypes, dt)
+				continue
+			}
 			t := sbom.DocumentType_SBOMType(1 + g.Int(5))
-			nm := ""
 			ds := ""
-			_ = nm
 			d.Metadata.DocumentTypes = append(d.Metadata.DocumentTypes, &sbom.DocumentType{Type: &t, Name: nil, Description: &ds})
 		}
 	}
